@@ -124,6 +124,21 @@ def near_misses(rng, valid):
                     ('2^252', 1 << 252), ('2^254', 1 << 254), ('2^255', 1 << 255), ('all-ones', (1 << 256) - 1), ('1', 1), ('2', 2),
                     ('2q', 2 * q), ('2q+8', 2 * q + 8), ('q+8', q + 8), ('(q-1)/2', (q - 1) // 2), ('(q+1)/2', (q + 1) // 2)):
         out.append((name, h32(v)))
+    # limb boundaries of the canonicity comparison: values that share q's top k limbs (64- and 32-bit) and differ just below, on
+    # both sides of q; and the largest valid encodings (the ones a limb-wise comparison written top-down gets wrong first)
+    for w in (32, 64):
+        for k in range(1, 256 // w):
+            hi = (q >> (w * k)) << (w * k)
+            lo_q = q & ((1 << (w * k)) - 1)
+            for lo in (0, 1, 2, lo_q - 2, lo_q - 1, lo_q, lo_q + 1, (1 << (w * k)) - 2, (1 << (w * k)) - 1, rng.getrandbits(w * k) & ~1):
+                if 0 <= lo < (1 << (w * k)):
+                    out.append(('limb-boundary%d' % w, h32(hi + lo)))
+    found, v = 0, q - 1
+    while found < 6 and v > q - 400:
+        if M.decode(v) is not None:
+            out.append(('largest-valid', h32(v)))
+            found += 1
+        v -= 1
     for _ in range(20):
         out.append(('random', h32(rng.getrandbits(256))))
     for _ in range(20):
@@ -182,7 +197,7 @@ MUL_FORMS_ARK = ['pe_rr', 'ep_rr', 'pe_or', 'pe_ro', 'pe_oo', 'ep_or', 'ep_ro', 
 AFF_FORMS_ARK = ['into', 'into_ref', 'into_affine', 'into_group', 'normalize_batch', 'batch_convert', 'clear_cofactor', 'mul_by_cofactor']
 SUM_FORMS_ARK = ['p_own', 'p_ref', 'a_own', 'a_ref']
 MSM_FORMS_ARK = ['vartime', 'vartime_own', 'msm', 'msm_unchecked']
-ENC_FORMS_ARK = ['compress', 'to_field', 'into_arr', 'into_enc', 'into_enc_ref', 'enc_into_arr', 'ser', 'ser_aff', 'ser_enc', 'debug',
+ENC_FORMS_ARK = ['compress', 'to_field', 'into_arr', 'into_enc', 'into_enc_ref', 'enc_into_arr', 'ser', 'ser_aff', 'ser_enc', 'ser_drip', 'ser_aff_drip', 'ser_enc_drip', 'ser_size', 'debug',
                  'display', 'debug_aff', 'display_aff', 'debug_enc']
 DEC_FORMS_ARK = ['try_slice', 'enc_try_slice', 'decompress', 'decompress_deprecated', 'try_arr', 'try_enc', 'try_enc_ref', 'enc_from_arr',
                  'deser_elem', 'deser_aff', 'deser_enc', 'deser_elem_drip', 'deser_aff_drip', 'deser_enc_drip']
@@ -975,7 +990,7 @@ def gen_C11(rng, tier):
         for Mv in [0, 1, m - 1, (1 << 64) - 1, 1 << 64, (1 << 32), (1 << 32) - 1] if fld == 'fq' else []:
             cases.append(Case('f.%s.from_mont %s' % (fld, ','.join(map(str, limbs_of(Mv, nl)))), cls='%s:from_mont:structured' % fld, oracle=expect(H(Mv * rinv_ % m))))
         for a in vs:
-            for form in ('le', 'to_bytes', 'ser', 'ser_unc', 'bigint_bytes'):
+            for form in ('le', 'to_bytes', 'ser', 'ser_drip', 'ser_unc', 'bigint_bytes'):
                 cases.append(Case('f.%s.to_bytes.%s %s' % (fld, form, H(a)), cls='%s:to_bytes' % fld, oracle=expect(H(a))))
             for form in ('into_bigint', 'from'):
                 cases.append(Case('f.%s.into_bigint.%s %s' % (fld, form, H(a)), builds=('ark',), cls='%s:into_bigint' % fld,
@@ -1259,6 +1274,30 @@ def gen_C13(rng, tier):
     for s in encs[:4]:
         for sq in seqs:
             cases.append(Case('g.lazy from=enc s=%s ops=%s' % (h32(s), ','.join(sq)), builds=R, cls='lazy-from-enc:%d' % len(sq), oracle=mk_olazy('enc'), canon=gcanon))
+    # two variables made from encodings (valid or not), neither decoded yet, into a binary gadget; with either, both or none of
+    # them forced beforehand: the verdict is "both decode natively (and the enforced relation holds)" whatever was forced when
+    def lazy2canon(out):
+        out = gcanon(out)
+        return re.sub(r'sat=0 out=\S*', 'sat=0', out)
+    inval = []
+    for cls, b in near_misses(rng, encs[:2]):
+        v = int.from_bytes(bytes.fromhex(b), 'little')
+        if v < q and native_decode_enc(v) is None and cls.split(':')[0] not in [c for c, _ in inval]:
+            inval.append((cls.split(':')[0], v))
+    inval = inval[:4 if tier == 'quick' else 12]
+    vals = [('valid', e) for e in encs[:2]]
+    pairs = [(vals[0], vals[0]), (vals[0], vals[1])] + [(vals[0], i) for i in inval] + [(i, vals[1]) for i in inval] \
+        + [(i, i) for i in inval] + [(inval[0], i) for i in inval[1:]]
+    for (c1, s1), (c2, s2) in pairs:
+        ok = native_decode_enc(s1) is not None and native_decode_enc(s2) is not None
+        for bop in ('iseq', 'enforce_eq', 'enforce_neq', 'cenforce_eq0', 'add', 'select'):
+            want = ok and (bop not in ('enforce_eq', 'enforce_neq') or (bop == 'enforce_eq') == (s1 == s2))
+            for pre in ('', '1', '2', '12'):
+                def o2(out, bld, want=want):
+                    got = gfields(gcanon(out)).get('sat')
+                    return None if got == ('1' if want else '0') else 'binary gadget on lazily decoded operands: expected sat=%d' % want
+                cases.append(Case('g.lazy2 s1=%s s2=%s bop=%s pre=%s' % (h32(s1), h32(s2), bop, pre), builds=R,
+                                  cls='lazy2:%s:%s' % (bop, 'valid' if ok else 'invalid'), oracle=o2, canon=lazy2canon))
     # operand whose encoding is already known / cached (public input, or forced before the operation), then the
     # operation, then the encoding of the RESULT as the circuit computes it: must be the native encoding of the result
     def oenc(out, bld):
